@@ -458,6 +458,8 @@ def _parse_assoc(body, kind, strict):
                 raise Reject("pc ac: accepted without transfer syntax")
             if strict and res > 4:
                 raise Reject("pc ac: result out of range")
+            if strict and (cid % 2 == 0):
+                raise Reject("pc ac: even context id")
             ctxs.append(PCAC(cid, res, ts[0] if ts else None))
         elif t == 0x50:
             rr = _R(ib, "user info")
